@@ -79,6 +79,9 @@ def one(name):
             except AnalysisError as ex:
                 und[pid] = str(ex)[:160]
                 continue
+            except Exception as ex:       # an internal error of the machinery is a finding about the machinery, not a crash of the harness
+                und[pid] = f'internal error {type(ex).__name__}: {ex}'[:160]
+                continue
             for i in instances:
                 if i.verdict != 'VIOLATION' or (pid, i.rule, i.construct) in known:
                     continue
